@@ -31,6 +31,9 @@ pub fn run_case(case: &EnumCase, report: &mut Report, property: &str) -> Option<
             return None;
         }
     };
+    if let Some(limit) = case.limit {
+        return run_limited(case, &ranges, &cfg, limit, report);
+    }
     let expected: Vec<Bucket> = expected_buckets(&cfg);
     let expected_total: u64 = expected.iter().map(|b| b.count).sum();
     let product = cfg.product();
@@ -88,6 +91,60 @@ pub fn run_case(case: &EnumCase, report: &mut Report, property: &str) -> Option<
     }
     Some(CaseStats {
         expected: expected_total,
+        yielded: monitor.yielded,
+        considered: st.deals_considered,
+        max_player_index: st.max_player_index,
+        max_blocked_run: st.max_blocked_run,
+        max_depth: st.max_depth,
+        stack_span: st.stack_span(),
+        river_before_turn: monitor.river_before_turn,
+    })
+}
+
+/// A case whose complete enumeration is out of reach (the product of the range sizes is beyond 2^32):
+/// the first `limit` showdowns must be legal, pairwise different deals, and the run must not end before
+/// `limit` of them came out when at least that many legal deals exist (counted by R3 with early exit).
+fn run_limited(case: &EnumCase, ranges: &Vec<espada::hand_range::HandRange>, cfg: &Config, limit: u64, report: &mut Report) -> Option<CaseStats> {
+    let at_least = crate::refmodel::enumerate::count_capped(cfg, limit);
+    let stats = drive::install_stats_sink(0);
+    let mut monitor = EnumMonitor::new(cfg);
+    let mut seen: std::collections::HashSet<(u64, u64)> = std::collections::HashSet::new();
+    let mut duplicates = 0u64;
+    let outcome = catch(|| {
+        for sd in drive::evaluator(cfg, ranges, None) {
+            let v = monitor.observe(&sd);
+            if !seen.insert(crate::refmodel::enumerate::deal_hash(v.board[3], v.board[4], &v.combos)) {
+                duplicates += 1;
+            }
+            if monitor.yielded >= limit {
+                break;
+            }
+        }
+    });
+    drive::remove_sink();
+    let st = stats.borrow().clone();
+    let sig = case.signature();
+    let case_json = case.to_json();
+    report.evaluations += 1;
+    report.count("limited_runs_on_products_beyond_2_pow_32", 1);
+    if let Err(p) = &outcome {
+        report.violate(format!("{}:panic@{}", sig, crate::util::panic_site(p)), format!("{}: iterating panicked after {} showdowns: {} ({})", case.label, monitor.yielded, p, cfg_short(cfg)), case_json.clone());
+    }
+    if let Some((kind, text)) = &monitor.first_problem {
+        report.violate(format!("{}:{}", sig, kind), format!("{}: {} ({} such showdowns; {})", case.label, text, monitor.problems, cfg_short(cfg)), case_json.clone());
+    }
+    if duplicates > 0 {
+        report.violate(format!("{}:duplicate", sig), format!("{}: {} of the first {} showdowns repeat an earlier deal ({})", case.label, duplicates, monitor.yielded, cfg_short(cfg)), case_json.clone());
+    }
+    if outcome.is_ok() && monitor.yielded < at_least {
+        report.violate(
+            format!("{}:ends-early", sig),
+            format!("{}: the enumeration ended after {} showdowns although at least {} legal deals exist (product of range sizes {}; {})", case.label, monitor.yielded, at_least, cfg.product(), cfg_short(cfg)),
+            case_json.clone(),
+        );
+    }
+    Some(CaseStats {
+        expected: at_least,
         yielded: monitor.yielded,
         considered: st.deals_considered,
         max_player_index: st.max_player_index,
@@ -227,6 +284,20 @@ pub fn cases(tier: Tier, seed: u64) -> Vec<EnumCase> {
             let ranges: Vec<Combos> = (0..n).map(|_| clustered_range(&mut rng, &pool_cards, per, WeightMode::Family)).collect();
             v.push(EnumCase::collect(&format!("multi-{}p-{}", n, rep), f, ranges));
         }
+    }
+    // weights at the corners of f32 multiplication: 1 and the value just below it, powers of two and
+    // their neighbours (the probability must be one of the exactly computable products)
+    for (i, sizes) in [vec![6usize], vec![1], vec![5, 5], vec![3, 3, 3], vec![2, 3, 2, 2], vec![12, 1]].iter().enumerate() {
+        for (m, mode) in [WeightMode::NearOne, WeightMode::Binary].iter().enumerate() {
+            let ranges: Vec<Combos> = sizes.iter().map(|s| random_range(&mut rng, *s, *mode)).collect();
+            v.push(EnumCase::collect(&format!("corner-weights-{}-{}", i, m), textured_flop(&mut rng, i), ranges));
+        }
+    }
+    // products of the range sizes at and beyond 2^32: only the first showdowns can be observed
+    let limit = tier.pick(60_000u64, 600_000);
+    for (label, sizes) in [("huge-4x256", vec![256usize, 256, 256, 256]), ("huge-3x1326", vec![1326, 1326, 1326]), ("huge-5x90", vec![90, 90, 90, 90, 90]), ("huge-1024x1024x512", vec![1024, 1024, 512]), ("huge-2x65536ish", vec![1326, 1326, 4])] {
+        let ranges: Vec<Combos> = sizes.iter().map(|s| random_range(&mut rng, *s, WeightMode::Family)).collect();
+        v.push(EnumCase::collect(label, textured_flop(&mut rng, sizes.len()), ranges).with_limit(limit));
     }
     // notation-built ranges
     for i in 0..tier.pick(12, 40) {
